@@ -27,6 +27,23 @@ class Sym:
         self.f = f
         self.memo = {}
         self.stack = set()
+        # locals whose address is taken mutably are memory cells, not values: keep them opaque
+        self.cells = set()
+        for i, j, s in f.stmts(live_only=False):
+            if s["s"] == "assign" and s["rv"]["r"] in ("ref", "rawptr") and (s["rv"]["r"] == "rawptr" or s["rv"]["mut"]):
+                p = s["rv"]["pl"]
+                if "*" not in p["p"]:
+                    self.cells.add(p["l"])
+
+    def origin(self, e):
+        """for an opaque memory-cell local with a single initialising definition: that definition's value"""
+        e = strip(e)
+        if e[0] == "local" and e[1] in self.cells:
+            ds = self.f.defs.get(e[1], [])
+            if len(ds) == 1:
+                blk, idx, kind, x = ds[0]
+                return self.rvalue(x) if kind == "rv" else self.call(x, blk)
+        return e
 
     # ---- locals ------------------------------------------------------------------
     def local(self, l):
@@ -41,7 +58,7 @@ class Sym:
                 return ("param", l, f.locals[l]["name"])
             return ("local", l, f.locals[l]["name"])
         ds = f.defs.get(l, [])
-        if len(ds) != 1:
+        if len(ds) != 1 or l in self.cells:
             return ("local", l, f.locals[l]["name"])
         self.stack.add(l)
         try:
